@@ -196,6 +196,10 @@ class Gen:
         for k, (v, ev) in self.tops.items():
             for hn, fobj in ev.rec_defs.items():
                 if hn not in self.helpers:
+                    try:
+                        U.find_type_param(fobj.fdef)
+                    except AnalysisError:
+                        continue        # a recursive function that is no type-shape traversal: its results stay opaque
                     self.helpers[hn] = A.helper(fobj)
 
     def fns(self, kind=None):
@@ -260,6 +264,12 @@ def extra_generator_paths(r, m, g):
         else:
             raise AnalysisError(f"{g.name}: a second, different generated function is returned under "
                                 f"`{U.show_conds(conds)}`; the rules cannot relate it to the specification")
+
+
+def gen_sites(g, v):
+    """occurrences of results of the generator's traversal helper(s) in a value (other recursive functions the
+    generator calls are opaque)"""
+    return [s_ for s_ in U.rec_sites(v) if s_.rec.fn in g.helpers]
 
 
 def the_helper(g):
@@ -404,7 +414,7 @@ def rule_traversal(repo):
         extra_generator_paths(r, m, g)
         h = the_helper(g)
         fields = g.fields_sym()
-        sites = U.rec_sites(g.top)
+        sites = gen_sites(g, g.top)
         if fields is None or not sites:
             r.bad(m, gname, 'field loop', "the generator never traverses its field table: no field is visited", g.fdef.lineno)
             continue
@@ -448,7 +458,7 @@ def rule_traversal(repo):
         # --- every generated function contains the traversal
         for idx, fn in g.fns():
             cons = f"generated {show(fn.name)} contains the field traversal"
-            if U.rec_sites(fn.body):
+            if gen_sites(g, fn.body):
                 r.ok(m, gname, cons, nontrivial=False)
             else:
                 r.bad(m, gname, cons, f"the body of the generated {show(fn.name)} does not contain the per-field statements",
@@ -641,7 +651,7 @@ def join_info(v):
 
 def top_visit(g, h):
     """(field loop, Rec of the field visit)"""
-    sites = U.rec_sites(g.top)
+    sites = gen_sites(g, g.top)
     if not sites:
         raise AnalysisError(f"{g.name}: no field visit")
     rec = single_rec(sites, g.name)
@@ -772,9 +782,47 @@ def frame_copy(fd, hl, want_params=2):
             good = isinstance(v, ast.Call) and isinstance(v.func, ast.Attribute) and v.func.attr == 'from_bits' \
                 and class_of(v.func.value) == a0 and len(v.args) == 1 and isinstance(v.args[0], ast.Call) \
                 and norm(v.args[0].func) == f"{a1}.to_bits" and not v.args[0].args
+        if not good and is_direct_unpack(st, a0, a1, hl):
+            continue        # leaf-wise unpacking of the packed value: its bit positions are judged by R-C06-grid
         if not good:
             pr.append(f"prologue `{norm(st.body)[:80]}` does not rebind {a1} to {a0}.__class__.from_bits({a1}.to_bits())")
     return pr
+
+
+def is_direct_unpack(st, a0, a1, hl):
+    """the foreign-right-hand-side block normalises `other` with to_bits() and then stores slices of it leaf by leaf
+    (emitted statement lines `self.<leaf> op= other[lo:hi]`), ending with `return self`"""
+    if st.orelse or not st.body:
+        return False
+    stores = 0
+    for x in st.body:
+        if isinstance(x, ast.Assign) and len(x.targets) == 1 and norm(x.targets[0]) == a1 and norm(x.value) == f"{a1}.to_bits()":
+            continue
+        if isinstance(x, ast.Assert):
+            continue
+        if isinstance(x, ast.AugAssign) and isinstance(x.value, ast.Subscript) and isinstance(x.value.slice, ast.Slice) \
+                and chain(x.target)[0] == a0 and chain(x.value.value)[0] == a1:
+            stores += 1
+            continue
+        if isinstance(x, ast.Return) and norm(x.value) == a0 and x is st.body[-1]:
+            continue
+        return False
+    return stores > 0
+
+
+def generator_defers_to_grid(g):
+    """R-C06-traversal / R-C06-leaf left a clause of this generator to the grid (emitted loops, direct unpacking)"""
+    if any(emits_loop_header(h) for h in g.helpers.values()):
+        return True
+    for idx, fn in g.fns():
+        if U.tmpl_text(fn.name) in ('__imatmul__', '__ilshift__'):
+            hl = U.Holes()
+            fd, src, err = U.parse_fn(fn, hl)
+            if fd is not None and len(fd.args.args) == 2:
+                a0, a1 = [a.arg for a in fd.args.args]
+                if any(isinstance(st, ast.If) and is_direct_unpack(st, a0, a1, hl) for st in fd.body):
+                    return True
+    return False
 
 
 def class_of(e):
@@ -826,7 +874,7 @@ def rule_leaf(repo):
             fname = U.tmpl_text(fn.name)
             if fname is None:
                 raise AnalysisError(f"{gname}: generated function with a computed name")
-            projs = {s.proj for s in U.rec_sites(fn.body)}
+            projs = {s.proj for s in gen_sites(g, fn.body)}
             if len(projs) != 1:
                 r.bad(m, gname, f"generated {fname}: body", "the generated body mixes different components of the "
                       "traversal results (or contains none)", g.fdef.lineno)
@@ -1110,8 +1158,9 @@ def _from_bits_leaf(r, A):
             r.ok(m, h.where, cons + f": {show(t)}")
 
 
-def from_list_reversed(A):
-    g, h, ci, si = from_bits_parts(A)
+def from_list_reversed(A, h=None):
+    g, h0, ci, si = from_bits_parts(A)
+    h = h or h0
     t = one_item(h.comps('list')[si])
     if t is None:
         return None
@@ -1355,6 +1404,19 @@ def rule_mirror(repo):
     else:
         d, _ = list_space(ht.cases['list'][1], lt[0].loops[0], ht.T, None)
         rev = from_list_reversed(A)
+        # additional return paths of the two list cases (e.g. a special case for multi-dimensional lists)
+        for tv in ht.variants(('list',))[1:]:
+            ls = U.rec_sites(tv.cases['list'][0])
+            dv = list_space(tv.cases['list'][1], ls[0].loops[0], ht.T, None)[0] if ls and ls[0].loops else None
+            if dv != d:
+                r.bad(m, tv.where, cons, f"on this path to_bits emits the elements in {dv}ending order, otherwise {d}ending: "
+                      f"from_bits reverses uniformly", ht.fdef.lineno)
+        for fv in hf.variants(('list',))[1:]:
+            rv = from_list_reversed(A, fv)
+            if rv is None or d is None or (d == 'desc') != rv:
+                r.bad(m, fv.where, cons, f"on this path from_bits {'reverses' if rv else 'does not reverse'} the collected "
+                      f"element arguments while to_bits emits the elements in {d}ending index order: for such list fields "
+                      f"from_bits(to_bits(v)).f == reversed(v.f)", hf.fdef.lineno)
         if d is None or rev is None:
             r.bad(m, hf.qual, cons, "cannot relate the list handling of to_bits and from_bits (see R-C06-traversal / "
                   "R-C06-leaf)", hf.fdef.lineno)
@@ -2436,6 +2498,7 @@ def rule_grid(repo):
                 if isinstance(val, U.V):
                     extra += [x for x in U.walk_values(val) if isinstance(x, Fold) and x not in extra]
             conc = U.Concretiser({h.name: h for h in g.helpers.values()}, folds=extra)
+            conc.module = m
             env = {fs: fields}
             if gname == '_mk_from_bits_fns':
                 others = [p_ for p_ in g.params if Sym(p_) != fs]
@@ -2444,7 +2507,7 @@ def rule_grid(repo):
                 res = conc.with_folds(g.top, env)
             except AnalysisError as ex:
                 # the induction rules judge this generator; the grid only has to decide when they deferred to it
-                if any(emits_loop_header(h) for h in g.helpers.values()):
+                if generator_defers_to_grid(g):
                     raise
                 r.ok(m, gname, f"{gname} for f: {shape!r}", nontrivial=False, note=f"not decided on the grid: {ex}")
                 if str(ex) not in ' '.join(r.observations):
@@ -2481,7 +2544,69 @@ def rule_grid(repo):
     return r
 
 
+def _leaf_ranges(delegate, packed, total):
+    """bit range [lo, hi) of every delegate-level leaf (a list element / nested struct as a whole) in the packed value"""
+    pos, rng = total, {}
+    for path, w in packed:
+        rng[path] = (pos - w, pos)
+        pos -= w
+    out = {}
+    for p in delegate:
+        sub = [r_ for q, r_ in rng.items() if q == p or q.startswith(p + '.') or q.startswith(p + '[')]
+        out[p] = (min(a for a, _ in sub), max(b for _, b in sub))
+    return out
+
+
+def _judge_conversion(fname, cond, delegate, packed, total):
+    """the block the emitted @= / <<= runs for a right-hand side of another class: either the conversion
+    other = self.__class__.from_bits(other.to_bits()), or a direct leaf-wise unpacking of the packed value that must
+    cut every leaf from the bits from_bits / to_bits assign to it"""
+    std = ('call', (('call', 'other.to_bits', ()),))
+    if len(cond) == 1 and cond[0][0] == 'assign' and cond[0][1] == ('other',) and cond[0][2][0] == 'call' \
+            and cond[0][2][1] in ('self.__class__.from_bits', 'type(self).from_bits') and cond[0][2][2] == std[1]:
+        return None
+    op = 'MatMult' if fname == '__imatmul__' else 'LShift'
+    rng = _leaf_ranges(delegate, packed, total)
+    src = None
+    seen = {}
+    for a in cond:
+        if a[0] == 'assign' and len(a[1]) == 1 and a[2] == ('call', f"{a[1][0]}.to_bits", ()):
+            src = a[1][0]
+        elif a[0] == 'aug' and a[1] == op and isinstance(a[3], tuple) and a[3][0] == 'slice' and a[2].startswith('self.'):
+            if a[2][5:] in seen:
+                return f"on the foreign right-hand-side path {a[2]} is written twice"
+            seen[a[2][5:]] = a[3]
+        elif a[0] == 'return' and a[1] == ('path', 'self'):
+            continue
+        else:
+            return (f"a right-hand side of another class is neither converted with self.__class__.from_bits(other.to_bits()) "
+                    f"nor unpacked leaf by leaf (unexpected action {a!r:.90})")
+    if not cond or cond[-1] != ('return', ('path', 'self')):
+        return "the foreign right-hand-side path neither converts `other` nor returns self after unpacking it"
+    for p in delegate:
+        if p not in seen:
+            return f"on the foreign right-hand-side path the leaf {p} is never written"
+        got = seen[p]
+        lo, hi = rng[p]
+        if (got[2], got[3]) != (lo, hi) or got[4] or (src is not None and got[1] != src):
+            return (f"a packed right-hand side is unpacked differently from from_bits/to_bits: self.{p} receives "
+                    f"{got[1]}[{got[2]}:{got[3]}], its bits in the packed layout are [{lo}:{hi}] (so `s <<= b` and "
+                    f"`s @= b` / from_bits(b) disagree)")
+    extra = sorted(set(seen) - set(delegate))
+    if extra:
+        return f"on the foreign right-hand-side path unexpected leaves are written: {extra[:4]}"
+    return None
+
+
 def _judge_emitted(fname, acts, delegate, packed, fields, total, Counter):
+    cond = [a[1] for a in acts if a[0] == 'cond']
+    acts = [a for a in acts if a[0] != 'cond']
+    if fname in ('__imatmul__', '__ilshift__') and cond:
+        msg = _judge_conversion(fname, cond, delegate, packed, total)
+        if msg:
+            return msg
+    elif cond:
+        return f"the generated {fname} contains a conditional block"
     rets = [a for a in acts if a[0] == 'return']
     if fname in ('__imatmul__', '__ilshift__', '_flip'):
         if fname == '_flip':
@@ -2798,7 +2923,15 @@ def rule_leaf_values(repo):
     return rule_range(repo)
 
 
-RULES = [rule_traversal, rule_leaf, rule_width, rule_mirror, rule_eqhash, rule_init, rule_wiring, rule_admit, rule_grid, rule_fresh, rule_concat, rule_cache, rule_leaf_values]
+def rule_leaf_effects(repo):
+    """the struct's staged (<<=) and visible (@=) values are kept apart leaf by leaf only if the leaf type keeps them apart: a
+    blocking write must not touch the pending value and vice versa.  Shared with C07 (R-C07-effects)."""
+    from rules.c07 import rule_effects
+    return rule_effects(repo)
+
+
+RULES = [rule_traversal, rule_leaf, rule_width, rule_mirror, rule_eqhash, rule_init, rule_wiring, rule_admit, rule_grid, rule_fresh, rule_concat, rule_cache, rule_leaf_values,
+         rule_leaf_effects]
 THOROUGH_RULES = [rule_admit_deep]
 
 
@@ -2979,6 +3112,15 @@ MUTANTS = [
        "return f'{self_name}.{name} = {name} if {name}.__class__ is _type_{name} else _type_{name}({name})'", 'R-C06'),
     _m('init-struct-default-in-signature', "    return f'{name} = None'\n  return f'{name} = 0'",
        "    return f'{name} = None' if isinstance( type_, list ) else f'{name} = _type_{name}()'\n  return f'{name} = 0'", 'R-C06'),
+    # --- fifth seeding round
+    _m('from-bits-rows-not-reversed', '''        from_strs.extend( fs )
+      return end_bit, [ f"[{','.join(reversed(from_strs))}]" ]''', '''        from_strs.extend( fs )
+      if isinstance( type_[0], list ):
+        return end_bit, [ f"[{','.join(from_strs)}]" ]
+      return end_bit, [ f"[{','.join(reversed(from_strs))}]" ]''', 'R-C06'),
+    dict(name='ilshift-direct-unpack-column-major', rule='R-C06-grid', edits=[
+        dict(file=BS, old='import functools\nimport keyword', new='import functools\nimport itertools\nimport keyword', count=1),
+        dict(file=BS, old="  ilshift_strs = [ 'if self.__class__ is not other.__class__:',\n                   '  other = self.__class__.from_bits( other.to_bits() )']\n  flip_strs = []\n", new='  bits_strs, nbits = [], 0\n  for name, type_ in reversed( fields.items() ):\n    leaf, dims = _recursive_check_array_types( type_ ) if isinstance( type_, list ) else ( type_, [] )\n    for idx in itertools.product( *map( range, dims ) ):\n      pos, stride = 0, 1\n      for i, d in zip( idx, dims ):\n        pos, stride = pos + i*stride, stride*d\n      lo = nbits + pos*leaf.nbits\n      bits_strs.append( f"  self.{name}{\'\'.join( f\'[{i}]\' for i in idx )} <<= other[{lo}:{lo+leaf.nbits}]" )\n    nbits += leaf.nbits * functools.reduce( operator.mul, dims, 1 )\n\n  ilshift_strs = [ \'if self.__class__ is not other.__class__:\',\n                   \'  other = other.to_bits()\',\n                  f\'  assert other.nbits == {nbits}, "bitwidth mismatch between LHS bitstruct and RHS"\',\n                   *bits_strs, \'  return self\' ]\n  flip_strs = []\n', count=1)]),
     # --- emitted run-time loops (fourth seeding round): nested dimensions share one loop variable
     _m('ff-emitted-loops-share-variable', '''  def _gen_list_ilshift_strs( type_, prefix='' ):
     if isinstance( type_, list ):
@@ -3137,6 +3279,9 @@ EQUIV = [
     else:
       return [ f"{indent}self.{prefix} <<= other.{prefix}" ], [f"{indent}self.{prefix}._flip()"]
 '''),
+    dict(name='ilshift-direct-unpack-row-major', rule=None, edits=[
+        dict(file=BS, old='import functools\nimport keyword', new='import functools\nimport itertools\nimport keyword', count=1),
+        dict(file=BS, old="  ilshift_strs = [ 'if self.__class__ is not other.__class__:',\n                   '  other = self.__class__.from_bits( other.to_bits() )']\n  flip_strs = []\n", new='  bits_strs, nbits = [], 0\n  for name, type_ in reversed( fields.items() ):\n    leaf, dims = _recursive_check_array_types( type_ ) if isinstance( type_, list ) else ( type_, [] )\n    for idx in itertools.product( *map( range, dims ) ):\n      pos, stride = 0, 1\n      for i, d in zip( reversed( idx ), reversed( dims ) ):\n        pos, stride = pos + i*stride, stride*d\n      lo = nbits + pos*leaf.nbits\n      bits_strs.append( f"  self.{name}{\'\'.join( f\'[{i}]\' for i in idx )} <<= other[{lo}:{lo+leaf.nbits}]" )\n    nbits += leaf.nbits * functools.reduce( operator.mul, dims, 1 )\n\n  ilshift_strs = [ \'if self.__class__ is not other.__class__:\',\n                   \'  other = other.to_bits()\',\n                  f\'  assert other.nbits == {nbits}, "bitwidth mismatch between LHS bitstruct and RHS"\',\n                   *bits_strs, \'  return self\' ]\n  flip_strs = []\n', count=1)]),
     _m('from-bits-list-reverse-in-place', """      return end_bit, [ f"[{','.join(reversed(from_strs))}]" ]""",
        """      from_strs.reverse()
       return end_bit, [ f"[{','.join(from_strs)}]" ]"""),
